@@ -33,7 +33,7 @@ def run_ob(name, entry_q, dq, entry_t=None, dt=None, unwind=64, timeout_q=900, t
 
 DAGPKG = "./internal/dag"
 C13_FLAGS = ["-unwind", "16", "-solver", "cvc5", "-fallback", "z3", "-query-timeout-ms", "5000", "-stub", "@/internal/dag.substituteCommands=subst-cmd"]
-C13_GROUPS = [("schedule", {"tree_depth": 2}), ("env", {"tree_depth": 2}), ("tags", {"tree_depth": 1}), ("strings", {"fields": "params logDir smtp.host mail.from preconditions"}),
+C13_GROUPS = [("schedule", {"tree_depth": 2}), ("env", {"tree_depth": 2}), ("tags", {"tree_depth": 1}), ("params", {"fields": "params (non-evaluating option sets only)"}), ("strings", {"fields": "logDir smtp.host mail.from preconditions"}),
               ("step", {"command_tree_depth": 1}), ("executor", {"config_spine_depth": 3}), ("call", {}), ("handlers", {})]
 
 
